@@ -30,7 +30,7 @@ MISSING = "<missing>"
 
 class Fmt:
     def __init__(self, name, suffix, fields, layout="tsv", buffer=None, header=None, lazy_capable=True,
-                 dataclass=None, allow_extra=False, bufpath=None):
+                 dataclass=None, allow_extra=False, bufpath=None, prefix=(), interior_comments=False):
         self.name = name
         self.suffix = suffix          # file suffix that selects the buffer in bnp.open (or with buffer=)
         self.fields = fields          # [(field_name, kind)]
@@ -41,6 +41,8 @@ class Fmt:
         self.dataclass = dataclass    # name in bionumpy.datatypes (for writing, C03)
         self.allow_extra = allow_extra  # trailing columns beyond the entry type are legal
         self.bufpath = bufpath or buffer  # import path of the buffer class (handle route)
+        self.prefix = list(prefix)    # constant leading columns that are not fields of the entry type (GFA 'S')
+        self.interior_comments = interior_comments   # '#' lines may appear between records (GFF3, wig-style bedGraph)
 
     def field_names(self):
         return [f for f, _ in self.fields]
@@ -92,6 +94,18 @@ VCFGT = _reg(Fmt("vcfgt", ".vcf", [("chromosome", "id"), ("position", "pos1"), (
                                    ("genotype", "vcfgt")],
                  buffer="bionumpy.io.vcf_buffers.VCFBuffer2", header="vcfgt", dataclass="VCFEntryWithGenotypes",
                  bufpath="bionumpy.io.vcf_buffers.VCFBuffer2"))
+WIG = _reg(Fmt("wig", ".wig", [("chromosome", "id"), ("start", "int"), ("stop", "int"), ("value", "float")],
+               dataclass="BedGraph", bufpath="bionumpy.io.wig.WigBuffer", interior_comments=True, lazy_capable=False))
+GFF3 = _reg(Fmt("gff3", ".gff3", [("chromosome", "id"), ("source", "str1"), ("feature_type", "str1"),
+                                  ("start", "int"), ("stop", "int"), ("score", "score"), ("strand", "strand"),
+                                  ("phase", "phase"), ("atributes", "gffattr")],
+                lazy_capable=False, dataclass="GFFEntry", bufpath="bionumpy.io.delimited_buffers.GFFBuffer",
+                interior_comments=True, header="gff3"))
+GFA = _reg(Fmt("gfa", ".gfa", [("name", "id"), ("sequence", "seq")], dataclass="SequenceEntry",
+               bufpath="bionumpy.io.delimited_buffers.GfaSequenceBuffer", prefix=["S"]))
+PAIRS = _reg(Fmt("pairs", ".pairs", [("read_id", "id"), ("chrom1", "id"), ("pos1", "int"), ("chrom2", "id"), ("pos2", "int"),
+                                     ("strand1", "strand"), ("strand2", "strand")],
+                 dataclass="PairsEntry", bufpath="bionumpy.io.pairs.PairsBuffer", header="pairs"))
 FASTA2 = _reg(Fmt("fasta2", ".fa", [("name", "hdr"), ("sequence", "seq")], layout="fasta2",
                   buffer="bionumpy.io.one_line_buffer.TwoLineFastaBuffer", dataclass="SequenceEntry"))
 FASTAW = _reg(Fmt("fastaw", ".fa", [("name", "hdr"), ("sequence", "seq")], layout="fastaw",
@@ -105,7 +119,7 @@ FASTQ = _reg(Fmt("fastq", ".fq", [("name", "hdr"), ("sequence", "seq"), ("qualit
 
 def value_of(kind, text):
     if kind in ("id", "str", "str1", "strand", "seq", "hdr", "rest", "cigar", "qualstr", "rgb", "score", "phase",
-                "gtfattr"):
+                "gtfattr", "gffattr"):
         return text
     if kind in ("int", "sint"):
         return int(text)
@@ -282,6 +296,9 @@ def gen_field(tape, kind, label, noncanon, ctx):
         n = 1 + tape.draw(3, label + ".n")
         return " ".join(f'{tape.choice(["gene_id", "transcript_id", "exon_number"], label + ".k")} '
                         f'"{gen_id(tape, label + ".v")}";' for _ in range(n))
+    if kind == "gffattr":
+        n = 1 + tape.draw(3, label + ".n")
+        return ";".join(f'{tape.choice(["ID", "Name", "Parent"], label + ".k")}={gen_id(tape, label + ".v")}' for _ in range(n))
     if kind == "vcfinfo":
         keys = [k for k in INFO_KEYS if tape.boolean(label + ".has", 1, 2)]
         # keys in any order (they are looked up by name)
@@ -359,7 +376,10 @@ def gen_records(tape, fmt, max_records, noncanon=True, min_records=1, style=None
                 t = repr(float(t))      # the spelling Python / the library's writer uses
             texts[fname] = t
         extra = []
-        recs.append({"texts": texts, "extra_cols": extra})
+        rec = {"texts": texts, "extra_cols": extra}
+        if fmt.interior_comments and recs and tape.boolean("comment_line", 1, 3):
+            rec["comment"] = "#" + gen_id(tape, "comment")
+        recs.append(rec)
     # file-level decisions that must be uniform over the records
     if fmt.allow_extra and not style.get("no_extra") and tape.boolean("extra_cols", 1, 4):
         n_extra = 1 + tape.draw(2, "n_extra")
@@ -409,6 +429,10 @@ def header_text(fmt, style, records):
     if fmt.header == "vcfgt":
         ns = len(records[0]["texts"]["genotype"].split("\t")) - 1 if records else 1
         return ["##fileformat=VCFv4.2", "#CHROM\tPOS\tID\tREF\tALT\tQUAL\tFILTER\tINFO\tFORMAT" + "".join(f"\tS{i}" for i in range(ns))]
+    if fmt.header == "gff3":
+        return ["##gff-version 3"]
+    if fmt.header == "pairs":
+        return ["## pairs format v1.0", "#columns: readID chr1 pos1 chr2 pos2 strand1 strand2"]
     if fmt.header == "sam":
         return ["@HD\tVN:1.6\tSO:unsorted", "@SQ\tSN:chr1\tLN:1000"]
     if fmt.header == "hash":
@@ -420,9 +444,9 @@ def record_lines(fmt, rec, style):
     """list of (line_text, [(field, start_in_line, text)]) for one record"""
     t = rec["texts"]
     if fmt.layout == "tsv":
-        cols = []
+        cols = list(fmt.prefix)
         spans = []
-        pos = 0
+        pos = sum(len(c) + 1 for c in cols)
         for fname, kind in fmt.fields:
             if kind == "rest":
                 if t[fname] == "":
@@ -464,6 +488,10 @@ def serialize(fmt, records, style):
     lay = []
     line_no = 0
     for rec in records:
+        if rec.get("comment"):
+            out.append(rec["comment"] + nl)
+            pos += len(rec["comment"]) + len(nl)
+            line_no += 1
         start = pos
         first_line = line_no
         fields = {}
@@ -576,6 +604,7 @@ _RX = {
     "phase": _re.compile(r"^[.012]$"),
     "cigar": _re.compile(r"^(\*|([0-9]+[MIDNSHP=X])+)$"),
     "gtfattr": _re.compile(r"^[ -~]*$"),
+    "gffattr": _re.compile(r"^[!-~]*$"),
     "vcfinfo": _re.compile(r"^(\.|[A-Z]+(=[^;\t ]+)?(;[A-Z]+(=[^;\t ]+)?)*)$"),
 }
 
@@ -612,10 +641,18 @@ def validate(fmt, body, style, lenient_extra=False):
         last_kind = fmt.fields[-1][1]
         has_rest = last_kind in ("rest", "vcfgt")     # the last field of the entry type spans all remaining columns
         nfixed = nf - 1 if has_rest else nf
+        pending_comment = None
         for i, ln in enumerate(lines):
+            if fmt.interior_comments and ln.startswith("#"):
+                pending_comment = ln
+                continue
             if "\r" in ln or ln == "":
                 return ("bad", i, "structure")
             cols = ln.split("\t")
+            if fmt.prefix:
+                if cols[:len(fmt.prefix)] != fmt.prefix:
+                    return ("bad", i, "field:<prefix>")
+                cols = cols[len(fmt.prefix):]
             if has_rest:
                 if len(cols) < nfixed:
                     return ("bad", i, "columns")
@@ -650,7 +687,11 @@ def validate(fmt, body, style, lenient_extra=False):
                 extra = cols[nfixed:]
                 if any(c == "" for c in extra):
                     return ("bad", i, "field:<extra>")
-            recs.append({"texts": texts, "extra_cols": extra})
+            rec = {"texts": texts, "extra_cols": extra}
+            if pending_comment is not None and recs:
+                rec["comment"] = pending_comment
+            pending_comment = None
+            recs.append(rec)
         return ("ok", recs)
     if fmt.layout == "fasta2":
         recs = []
